@@ -27,9 +27,11 @@ static llvm::cl::opt<std::string> OutFile("o", llvm::cl::desc("output C file"), 
 static llvm::cl::opt<std::string> NamesFile("names", llvm::cl::desc("output names.json"), llvm::cl::init(""), llvm::cl::cat(Cat));
 static llvm::cl::opt<std::string> ShimFile("shims", llvm::cl::desc("output extern-C shim C++ file"), llvm::cl::init(""), llvm::cl::cat(Cat));
 
+static std::string g_curFnPretty;
 [[noreturn]] static void die(const std::string& m, const Stmt* S = nullptr, ASTContext* C = nullptr)
 {
     llvm::errs() << "cxx2c: unsupported: " << m << "\n";
+    if(!g_curFnPretty.empty()) llvm::errs() << "  while lowering " << g_curFnPretty << "\n";
     if(S && C) { S->getBeginLoc().print(llvm::errs(), C->getSourceManager()); llvm::errs() << "\n"; S->dump(); }
     exit(2);
 }
@@ -116,8 +118,13 @@ struct Lower
             default: die("builtin type " + T.getAsString());
             }
         }
-        if(T->isPointerType()) { QualType P = T->getPointeeType(); if(P->isFunctionType()) die("function pointer type"); return ctype(P) + " *"; }
-        if(T->isReferenceType()) return ctype(T->getPointeeType()) + " *";
+        if(T->isPointerType() || T->isReferenceType())
+        {
+            QualType P = T->getPointeeType();
+            if(P->isFunctionType()) die("function pointer type");
+            if(C.getAsConstantArrayType(P)) return cdecl_(T, "");  // pointer/reference to array: T (*)[N]
+            return ctype(P) + " *";
+        }
         if(auto* E = T->getAs<EnumType>()) return ctype(E->getDecl()->getIntegerType());
         if(auto* R = T->getAs<RecordType>()) { needRecord(R->getDecl()); return "struct " + recName(R->getDecl()); }
         die("type " + T.getAsString());
@@ -128,6 +135,8 @@ struct Lower
         T = T.getCanonicalType();
         if(auto* A = C.getAsConstantArrayType(T))
             return cdecl_(A->getElementType(), name + "[" + std::to_string(A->getSize().getZExtValue()) + "]");
+        if((T->isPointerType() || T->isReferenceType()) && C.getAsConstantArrayType(T->getPointeeType()))
+            return cdecl_(T->getPointeeType(), "(*" + name + ")");
         return ctype(T) + " " + name;
     }
     static std::string baseField(unsigned i) { return "__b" + std::to_string(i); }
@@ -217,7 +226,7 @@ struct Lower
         if(auto* MD = dyn_cast<CXXMethodDecl>(F); MD && MD->isInstance())
         { s << "struct " << recName(MD->getParent()) << " *self"; needRecord(MD->getParent()); first = false; }
         unsigned i = 0;
-        for(auto* P : F->parameters()) { if(!first) s << ", "; first = false; s << ctype(P->getType()) << " " << paramName(P, i++); }
+        for(auto* P : F->parameters()) { if(!first) s << ", "; first = false; s << cdecl_(P->getType(), paramName(P, i)); i++; }
         if(first) s << "void";
         s << ")";
         return s.str();
@@ -680,7 +689,16 @@ struct Lower
         QualType T = CE->getType();
         switch(CE->getCastKind())
         {
-        case CK_LValueToRValue: return lv(S);
+        case CK_LValueToRValue:
+            // reading a scalar namespace-scope / static-member constant: use its value (DFCC treats globals as arbitrary at function entry)
+            if(auto* D = dyn_cast<DeclRefExpr>(S->IgnoreParens()))
+                if(auto* VD = dyn_cast<VarDecl>(D->getDecl()); VD && VD->hasGlobalStorage() && !VD->isStaticLocal() && T->isScalarType() && !T->isPointerType()
+                   && (VD->getType().isConstQualified() || VD->isConstexpr()))
+                {
+                    const VarDecl* Def = VD->getDefinition() ? VD->getDefinition() : VD;
+                    if(const APValue* V = Def->evaluateValue()) if(V->isInt() || V->isFloat()) return apInit(*V, T);
+                }
+            return lv(S);
         case CK_NoOp:
             if(T->isRecordType()) return rv(S);
             return "((" + ctype(T) + ")" + rv(S) + ")";
@@ -809,7 +827,7 @@ struct Lower
             funcJson(F, false);
             return;
         }
-        temps.clear(); tempCounter = 0; loopCounter = 0; curFn = funcName(F); curInStd = inStd(F);
+        temps.clear(); tempCounter = 0; loopCounter = 0; curFn = funcName(F); curInStd = inStd(F); g_curFnPretty = prettyFn(F);
         curLambdaThisField.clear();
         if(auto* MD = dyn_cast<CXXMethodDecl>(F); MD && MD->getParent()->isLambda())
         {
